@@ -150,7 +150,8 @@ def render_class(o, t, members, inv, ic):
 
 CODE_BODIES = [" return nil, nil ", "\n\treturn x, nil\n", " if a { b() } else { c() }; return 1, nil ", ' s := "}{"; return s, nil ',
                " // comment with }\n return nil, nil ", " /* { */ return nil, nil /* } */ ", " r := '{'; _ = r; return `}`, nil ",
-               " m := map[string]struct{}{}; _ = m; return nil, nil ", "", " return \"a\\\"}b\", nil "]
+               " m := map[string]struct{}{}; _ = m; return nil, nil ", "", " return \"a\\\"}b\", nil ",
+               " return \"}\\n\", nil ", " s := \"{\\t\\x41\"; return s + \"\\u00e9}\", nil ", " return \"\\\\\", nil // }\n"]
 
 
 def render_code(o, t):
